@@ -1,73 +1,230 @@
-// C08: PolygonAreaT bookkeeping for every edit history
+// C08: PolygonAreaT bookkeeping for every edit history (all public members, five solver configurations),
+//      AreaReduce on the accumulator, AddEdge-built vs AddPoint-built polygons, tools/Planimeter in-process
 #include "common.hpp"
+#include <iostream>
+#include <string>
+#include <sstream>
+#include <fstream>
+#include <algorithm>
 #include <GeographicLib/PolygonArea.hpp>
 #include <GeographicLib/Geodesic.hpp>
 #include <GeographicLib/GeodesicExact.hpp>
 #include <GeographicLib/Rhumb.hpp>
 #include <GeographicLib/Math.hpp>
+#include <GeographicLib/DMS.hpp>
+#include <GeographicLib/Utility.hpp>
+#include <GeographicLib/GeoCoords.hpp>
+#include <GeographicLib/AuxLatitude.hpp>
+
+// tools/Planimeter.cpp of the *current* tree is compiled into this harness (same library build, same sanitizers);
+// its `main` and `usage` live in a namespace.  All headers it includes are included above.
+namespace tool_planimeter {
+#include "../tools/Planimeter.cpp"
+}
+
 using namespace GeographicLib; using namespace gv;
 
 static std::vector<std::string> splitc(const std::string& s, char c = ':') { std::vector<std::string> r; std::string t; std::istringstream is(s); while (std::getline(is, t, c)) r.push_back(t); return r; }
 static std::string opt(bool written, double v) { return written ? hx(v) : std::string("-"); }
 static const double SENT = 7.25e77;
+static void badx(const std::string& rel, std::string det) {
+  for (size_t i = 0; i + 1 < det.size(); ++i) if (det[i] == ':' && det[i + 1] == ':') det[i + 1] = '.';
+  for (auto& c : det) if ((unsigned char)c < 32 || (unsigned char)c > 126) c = '?';
+  gv::bad(rel, det);
+}
+static std::string g17(double x) { char b[40]; std::snprintf(b, sizeof b, "%.17g", x); return b; }
+static double ulpof(double x) { return gv::ulp(x == 0 ? 1e-300 : x); }
+static double moddiff(double a, double b, double A) { return std::fabs(std::remainder(a - b, A)); }
+
+// ---- the algebra of the four (reverse, sign) outputs: r[reverse][sign] ------------------------------------
+// signed outputs are exact negatives of each other (the documented "negated"), the unsigned output is the signed one
+// when that is >= 0 and the signed one + A (one rounding) otherwise, complements add up to A, ranges as documented.
+static void flag_algebra(const char* what, const double r[2][2], double A) {
+  double u = ulpof(A);
+  for (int rv = 0; rv < 2; ++rv) {
+    double s = r[rv][1], n = r[rv][0];
+    if (!(s > -A / 2 - 0 && s <= A / 2)) badx("flag-algebra", std::string(what) + ": signed area " + g17(s) + " outside (-A/2, A/2], A=" + g17(A));
+    if (!(n >= 0 && n <= A)) badx("flag-algebra", std::string(what) + ": unsigned area " + g17(n) + " outside [0, A], A=" + g17(A));
+    if (s >= 0 ? !(n == s) : !(std::fabs(n - (s + A)) <= 2 * u))
+      badx("flag-algebra", std::string(what) + ": unsigned area " + g17(n) + " is not the signed area " + g17(s) + (s >= 0 ? "" : " + A") + " (reverse=" + std::to_string(rv) + ")");
+  }
+  double a = r[1][1], b = r[0][1];
+  if (std::fabs(a) == A / 2 || std::fabs(b) == A / 2) { if (!(a == A / 2 && b == A / 2)) badx("flag-algebra", std::string(what) + ": at the end of the range both signed areas must be +A/2: " + g17(a) + ", " + g17(b)); }
+  else if (!(a == -b)) badx("flag-algebra", std::string(what) + ": reverse does not negate the signed area exactly: " + g17(a) + " vs " + g17(b));
+  double c = r[1][0], d = r[0][0];
+  if ((c == 0 || d == 0) ? !((c == 0 || std::fabs(c - A) <= 2 * u) && (d == 0 || std::fabs(d - A) <= 2 * u)) : !(std::fabs(c + d - A) <= 4 * u))
+    badx("flag-algebra", std::string(what) + ": unsigned areas for the two values of reverse do not add up to A: " + g17(c) + " + " + g17(d));
+}
+
+// ---- the whole object, bit for bit --------------------------------------------------------------------------
+template<class Earth> static std::vector<uint64_t> snap(const PolygonAreaT<Earth>& p) {
+  return {uint64_t(p._num), uint64_t(int64_t(p._crossings)), bits(p._areasum._s), bits(p._areasum._t), bits(p._perimetersum._s), bits(p._perimetersum._t),
+          bits(p._lat0), bits(p._lon0), bits(p._lat1), bits(p._lon1), bits(p._area0), uint64_t(p._mask), uint64_t(p._polyline),
+          bits(p._earth.EquatorialRadius()), bits(p._earth.Flattening())};
+}
+static const char* snapname[] = {"_num", "_crossings", "_areasum._s", "_areasum._t", "_perimetersum._s", "_perimetersum._t", "_lat0", "_lon0", "_lat1", "_lon1", "_area0", "_mask", "_polyline", "_earth.a", "_earth.f"};
 
 template<class Earth> struct Hist {
-  static void run(const Earth& earth, bool polyline, const Args& a, size_t first) {
-    PolygonAreaT<Earth> p(earth, polyline);
-    std::string out = "A0:" + hx(p._area0);
+  typedef PolygonAreaT<Earth> Poly;
+  static std::string inv(const Earth& earth, unsigned mask, double lat1, double lon1, double lat2, double lon2, double& s12, double& S12) {
+    double x; s12 = 0; S12 = 0;
+    earth.GenInverse(lat1, lon1, lat2, lon2, mask, s12, x, x, x, x, x, S12);
+    return " k:" + hx(lat1) + ":" + hx(lon1) + ":" + hx(lat2) + ":" + hx(lon2) + ":" + hx(s12) + ":" + hx(S12);
+  }
+  static std::string dir(const Earth& earth, unsigned mask, double lat1, double lon1, double azi, double s, double& lat2, double& lon2, double& S12) {
+    double x; lat2 = 0; lon2 = 0; S12 = 0;
+    earth.GenDirect(lat1, lon1, azi, false, s, mask, lat2, lon2, x, x, x, x, x, S12);
+    return " d:" + hx(lat1) + ":" + hx(lon1) + ":" + hx(azi) + ":" + hx(s) + ":" + hx(lat2) + ":" + hx(lon2) + ":" + hx(S12);
+  }
+  static void unchanged(const std::vector<uint64_t>& a, const Poly& p, const char* what) {
+    auto b = snap(p);
+    for (size_t i = 0; i < a.size(); ++i) if (a[i] != b[i]) { badx("query-modifies-polygon", std::string(what) + " changed " + snapname[i]); return; }
+  }
+  // CurrentPoint reports the vertex last added: same latitude, same longitude modulo 360 (the header promises
+  // [-180, 180], the code returns the longitude as stored: either is the same point)
+  static void current_point(const Poly& p, const char* what) {
+    double la, lo; p.CurrentPoint(la, lo);
+    bool ok = std::isnan(p._lat1) ? (std::isnan(la) && std::isnan(lo)) :
+      (bits(la) == bits(p._lat1) && (bits(lo) == bits(p._lon1) || (!std::isfinite(p._lon1) ? !std::isfinite(lo) : Math::AngNormalize(lo) == Math::AngNormalize(p._lon1))));
+    if (!ok) badx("current-point", std::string("CurrentPoint after ") + what + " reports (" + g17(la) + ", " + g17(lo) + "), the vertex is (" + g17(p._lat1) + ", " + g17(p._lon1) + ")");
+  }
+  static std::string state(const Poly& p) {
+    unsigned n = p.NumberPoints();
+    return " s:" + std::to_string(n) + ":" + hx(p._lat1) + ":" + hx(p._lon1) + ":" + hx(p._lat0) + ":" + hx(p._lon0) + ":" + std::to_string(p._crossings) + ":" +
+      hx(p._areasum._s) + ":" + hx(p._areasum._t) + ":" + hx(p._perimetersum._s) + ":" + hx(p._perimetersum._t);
+  }
+  // a query against "do it on a copy": count equal, perimeter and area to within round-off of the accumulated sums
+  static void against_copy(const char* what, unsigned n, double per, double area, unsigned n2, double per2, double area2, bool polyline, double scaleP, double scaleS, double A) {
+    double e = std::ldexp(1.0, -50);
+    if (n != n2) badx("test-vs-add-compute", std::string(what) + " returns " + std::to_string(n) + " points, Add+Compute on a copy " + std::to_string(n2));
+    if (!(std::fabs(per - per2) <= e * (scaleP + 1))) badx("test-vs-add-compute", std::string(what) + " perimeter " + g17(per) + " vs Add+Compute on a copy " + g17(per2));
+    if (polyline) { if (area != SENT || area2 != SENT) badx("polyline-touches-area", std::string(what) + ": area written in polyline mode"); }
+    else if (!(moddiff(area, area2, A) <= e * (scaleS + A))) badx("test-vs-add-compute", std::string(what) + " area " + g17(area) + " vs Add+Compute on a copy " + g17(area2));
+  }
+  static void run(const Earth& earth, bool polyline, double ea, double ef, const Args& a, size_t first) {
+    Poly p(earth, polyline);
+    const double A = p._area0;
+    std::string out = "A0:" + hx(A);
+    if (p.Polyline() != polyline || bits(p.EquatorialRadius()) != bits(ea) || bits(p.Flattening()) != bits(ef) || bits(A) != bits(earth.EllipsoidArea()))
+      badx("inspector-mismatch", "Polyline/EquatorialRadius/Flattening/_area0 differ from the constructor arguments");
+    if (polyline && (p._mask & Earth::AREA)) badx("polyline-touches-area", "the mask of a polyline requests the area");
+    out += state(p);
     for (size_t i = first; i < a.size(); ++i) {
       auto t = splitc(a[i]);
-      double s12 = 0, S12 = 0, x;
-      if (t[0] == "X") { p.Clear(); out += " x"; }
+      double s12 = 0, S12 = 0;
+      if (t[0] == "X") { p.Clear(); out += " x";
+        double la, lo; p.CurrentPoint(la, lo);
+        if (p.NumberPoints() != 0 || !std::isnan(la) || !std::isnan(lo)) badx("clear-not-empty", "after Clear: NumberPoints=" + std::to_string(p.NumberPoints()) + " CurrentPoint=" + g17(la) + "," + g17(lo));
+      }
       else if (t[0] == "P") {
         double lat = unhx(t[1]), lon = unhx(t[2]);
-        if (p._num) earth.GenInverse(p._lat1, p._lon1, lat, lon, p._mask, s12, x, x, x, x, x, S12);
-        p.AddPoint(lat, lon); out += " k:" + hx(s12) + ":" + hx(S12);
+        if (p._num) out += inv(earth, p._mask, p._lat1, p._lon1, lat, lon, s12, S12);
+        p.AddPoint(lat, lon);
+        if (bits(p._lat1) != bits(lat) || bits(p._lon1) != bits(lon)) badx("current-point", "the current vertex after AddPoint is not the point added");
       } else if (t[0] == "E") {
         double azi = unhx(t[1]), s = unhx(t[2]), lat2 = 0, lon2 = 0;
-        if (p._num) earth.GenDirect(p._lat1, p._lon1, azi, false, s, p._mask, lat2, lon2, x, x, x, x, x, S12);
-        p.AddEdge(azi, s); out += " k:" + hx(lat2) + ":" + hx(lon2) + ":" + hx(S12);
+        unsigned n0 = p.NumberPoints(); auto before = snap(p);
+        if (p._num) out += dir(earth, p._mask, p._lat1, p._lon1, azi, s, lat2, lon2, S12);
+        p.AddEdge(azi, s);
+        if (n0 == 0) unchanged(before, p, "AddEdge before the first point");
+        else if (bits(p._lat1) != bits(lat2) || bits(p._lon1) != bits(lon2)) badx("current-point", "the current vertex after AddEdge is not the end of the edge");
       } else if (t[0] == "C") {
         bool rev = t[1] == "1", sign = t[2] == "1";
-        if (p._num >= 2) earth.GenInverse(p._lat1, p._lon1, p._lat0, p._lon0, p._mask, s12, x, x, x, x, x, S12);
+        if (p._num >= 2 && !polyline) out += inv(earth, p._mask, p._lat1, p._lon1, p._lat0, p._lon0, s12, S12);
+        auto before = snap(p);
         double per = SENT, area = SENT; unsigned n = p.Compute(rev, sign, per, area);
-        out += " k:" + hx(s12) + ":" + hx(S12) + " r:" + std::to_string(n) + ":" + opt(per != SENT, per) + ":" + opt(area != SENT, area);
+        out += " r:" + std::to_string(n) + ":" + opt(per != SENT, per) + ":" + opt(area != SENT, area);
+        unchanged(before, p, "Compute");
+        if (n != p.NumberPoints()) badx("number-points", "Compute returns " + std::to_string(n) + ", NumberPoints() " + std::to_string(p.NumberPoints()));
+        if (!polyline) { double r[2][2]; bool ok = true;
+          for (int rv = 0; rv < 2; ++rv) for (int sg = 0; sg < 2; ++sg) { double pp; r[rv][sg] = SENT; p.Compute(rv, sg, pp, r[rv][sg]); if (bits(pp) != bits(per)) badx("flag-algebra", "Compute: the perimeter depends on reverse/sign"); if (!std::isfinite(r[rv][sg])) ok = false; }
+          if (bits(r[rev][sign]) != bits(area)) badx("flag-algebra", "Compute is not repeatable");
+          if (ok) flag_algebra("Compute", r, A);
+        }
       } else if (t[0] == "TP") {
         double lat = unhx(t[1]), lon = unhx(t[2]); bool rev = t[3] == "1", sign = t[4] == "1";
         double s1 = 0, S1 = 0, s2 = 0, S2 = 0;
-        if (p._num) { earth.GenInverse(p._lat1, p._lon1, lat, lon, p._mask, s1, x, x, x, x, x, S1); earth.GenInverse(lat, lon, p._lat0, p._lon0, p._mask, s2, x, x, x, x, x, S2); }
-        PolygonAreaT<Earth> before(p);
+        if (p._num) { out += inv(earth, p._mask, p._lat1, p._lon1, lat, lon, s1, S1); if (!polyline) out += inv(earth, p._mask, lat, lon, p._lat0, p._lon0, s2, S2); }
+        auto before = snap(p);
         double per = SENT, area = SENT; unsigned n = p.TestPoint(lat, lon, rev, sign, per, area);
-        out += " k:" + hx(s1) + ":" + hx(S1) + ":" + hx(s2) + ":" + hx(S2) + " r:" + std::to_string(n) + ":" + opt(per != SENT, per) + ":" + opt(area != SENT, area);
+        out += " r:" + std::to_string(n) + ":" + opt(per != SENT, per) + ":" + opt(area != SENT, area);
         unchanged(before, p, "TestPoint");
+        { Poly q(p); q.AddPoint(lat, lon); double per2 = SENT, area2 = SENT; unsigned n2 = q.Compute(rev, sign, per2, area2);
+          if (std::isfinite(per) && (polyline || std::isfinite(area)))
+            against_copy("TestPoint", n, per, area, n2, per2, area2, polyline, std::fabs(p._perimetersum._s) + std::fabs(s1) + std::fabs(s2), std::fabs(p._areasum._s) + std::fabs(S1) + std::fabs(S2), A); }
+        if (!polyline && p._num) { double r[2][2]; bool ok = true;
+          for (int rv = 0; rv < 2; ++rv) for (int sg = 0; sg < 2; ++sg) { double pp; r[rv][sg] = SENT; p.TestPoint(lat, lon, rv, sg, pp, r[rv][sg]); if (!std::isfinite(r[rv][sg])) ok = false; }
+          if (ok) flag_algebra("TestPoint", r, A); }
       } else if (t[0] == "TE") {
         double azi = unhx(t[1]), s = unhx(t[2]); bool rev = t[3] == "1", sign = t[4] == "1";
         double lat2 = 0, lon2 = 0, s2 = 0, S2 = 0;
-        if (p._num) { earth.GenDirect(p._lat1, p._lon1, azi, false, s, p._mask, lat2, lon2, x, x, x, x, x, S12); earth.GenInverse(lat2, lon2, p._lat0, p._lon0, p._mask, s2, x, x, x, x, x, S2); }
-        PolygonAreaT<Earth> before(p);
+        if (p._num) { out += dir(earth, p._mask, p._lat1, p._lon1, azi, s, lat2, lon2, S12); if (!polyline) out += inv(earth, p._mask, lat2, lon2, p._lat0, p._lon0, s2, S2); }
+        auto before = snap(p);
         double per = SENT, area = SENT; unsigned n = p.TestEdge(azi, s, rev, sign, per, area);
-        out += " k:" + hx(lat2) + ":" + hx(lon2) + ":" + hx(S12) + ":" + hx(s2) + ":" + hx(S2) + " r:" + std::to_string(n) + ":" + opt(per != SENT, per) + ":" + opt(area != SENT, area);
+        out += " r:" + std::to_string(n) + ":" + opt(per != SENT, per) + ":" + opt(area != SENT, area);
         unchanged(before, p, "TestEdge");
+        if (p._num) { Poly q(p); q.AddEdge(azi, s); double per2 = SENT, area2 = SENT; unsigned n2 = q.Compute(rev, sign, per2, area2);
+          if (std::isfinite(per) && (polyline || std::isfinite(area)))
+            against_copy("TestEdge", n, per, area, n2, per2, area2, polyline, std::fabs(p._perimetersum._s) + std::fabs(s) + std::fabs(s2), std::fabs(p._areasum._s) + std::fabs(S12) + std::fabs(S2), A); }
+        if (!polyline && p._num) { double r[2][2]; bool ok = true;
+          for (int rv = 0; rv < 2; ++rv) for (int sg = 0; sg < 2; ++sg) { double pp; r[rv][sg] = SENT; p.TestEdge(azi, s, rv, sg, pp, r[rv][sg]); if (!std::isfinite(r[rv][sg])) ok = false; }
+          if (ok) flag_algebra("TestEdge", r, A); }
       }
+      out += state(p); current_point(p, t[0].c_str());
+      if (polyline && (p._crossings != 0 || bits(p._areasum._s) != 0 || bits(p._areasum._t) != 0)) badx("polyline-touches-area", "a polyline changed _areasum/_crossings");
     }
+    if (p.Polyline() != polyline || bits(p.EquatorialRadius()) != bits(ea) || bits(p.Flattening()) != bits(ef) || bits(p._area0) != bits(A))
+      badx("inspector-mismatch", "Polyline/EquatorialRadius/Flattening/_area0 changed during the history");
     emit(out);
-  }
-  static void unchanged(const PolygonAreaT<Earth>& a, const PolygonAreaT<Earth>& b, const char* what) {
-    if (a._num != b._num || a._crossings != b._crossings || bits(a._areasum._s) != bits(b._areasum._s) || bits(a._areasum._t) != bits(b._areasum._t) ||
-        bits(a._perimetersum._s) != bits(b._perimetersum._s) || bits(a._lat1) != bits(b._lat1) || bits(a._lon1) != bits(b._lon1))
-      bad("test-query-modifies-polygon", std::string(what) + " changed the polygon");
   }
 };
 
+// the five solver configurations: G Geodesic (series), E GeodesicExact, R Rhumb (series), X Geodesic(exact = true), Y Rhumb(exact = true)
+template<class F> static void with_earth(char bk, double a, double f, F fn) {
+  switch (bk) {
+  case 'G': fn(Geodesic(a, f)); break;
+  case 'E': fn(GeodesicExact(a, f)); break;
+  case 'R': fn(Rhumb(a, f)); break;
+  case 'X': fn(Geodesic(a, f, true)); break;
+  default:  fn(Rhumb(a, f, true)); break;
+  }
+}
+struct HistFn { bool polyline; double a, f; const Args& args;
+  template<class Earth> void operator()(const Earth& e) const { Hist<Earth>::run(e, polyline, a, f, args, 4); } };
+
 static Reg r_poly("poly", [](const Args& a) {
   double ea = unhx(a[1]), ef = unhx(a[2]); bool polyline = a[3] == "1";
-  if (a[0] == "G") Hist<Geodesic>::run(Geodesic(ea, ef), polyline, a, 4);
-  else if (a[0] == "E") Hist<GeodesicExact>::run(GeodesicExact(ea, ef), polyline, a, 4);
-  else Hist<Rhumb>::run(Rhumb(ea, ef), polyline, a, 4);
+  with_earth(a[0][0], ea, ef, HistFn{polyline, ea, ef, a});
 });
 static Reg r_transit("transit", [](const Args& a) {
   double l1 = unhx(a[0]), l2 = unhx(a[1]);
-  emit(std::to_string(PolygonArea::transit(l1, l2)) + " " + std::to_string(PolygonArea::transitdirect(l1, l2)));
+  int t = PolygonArea::transit(l1, l2), td = PolygonArea::transitdirect(l1, l2);
+  emit(std::to_string(t) + " " + std::to_string(td));
+  if (t != PolygonAreaRhumb::transit(l1, l2) || t != PolygonAreaExact::transit(l1, l2) || td != PolygonAreaRhumb::transitdirect(l1, l2) || td != PolygonAreaExact::transitdirect(l1, l2))
+    badx("transit-instantiations", "transit/transitdirect differ between the three instantiations");
+  // an unrolled end longitude within half a turn: the two counters have the same parity (AddEdge ~ AddPoint)
+  double d = l2 - l1;
+  if (std::isfinite(d) && std::fabs(d) < 180 && l1 + d == l2 && (t - td) % 2 != 0)
+    badx("transit-vs-transitdirect", "lon1=" + g17(l1) + " lon2=" + g17(l2) + ": transit=" + std::to_string(t) + " transitdirect=" + std::to_string(td));
+});
+
+// ---- AreaReduce on an accumulator (through Compute) and on a plain real (through TestPoint), all four flag combinations ----
+// The sums and the crossing count are planted in an object whose two vertices coincide at (0, 0): the closing edge adds
+// nothing, so Compute returns 0 + AreaReduce(Accumulator(s, t) + S12) and TestPoint(0, 0) returns 0 + AreaReduce(real(s) + S12 + S12).
+// areduce <a> <f> <s> <t> <crossings> | A0 S12 then for (rv, sg) in 00 01 10 11: Compute area : TestPoint area
+static Reg r_areduce("areduce", [](const Args& a) {
+  Geodesic g(unhx(a[0]), unhx(a[1])); PolygonArea p(g);
+  double s = unhx(a[2]), t = unhx(a[3]); int cr = std::atoi(a[4].c_str());
+  p.AddPoint(0, 0); p.AddPoint(0, 0); p._areasum._s = s; p._areasum._t = t; p._crossings = cr;
+  double s12, S12, x; g.GenInverse(0, 0, 0, 0, p._mask, s12, x, x, x, x, x, S12);
+  std::string out = "A0:" + hx(p._area0) + " " + hx(S12); double ra[2][2], rr[2][2];
+  for (int rv = 0; rv < 2; ++rv) for (int sg = 0; sg < 2; ++sg) {
+    double per; p.Compute(rv, sg, per, ra[rv][sg]); p.TestPoint(0, 0, rv, sg, per, rr[rv][sg]);
+    out += " " + hx(ra[rv][sg]) + ":" + hx(rr[rv][sg]);
+  }
+  emit(out);
+  if (S12 != 0 || s12 != 0) badx("harness", "the degenerate closing edge is not empty");
+  if (std::isfinite(s) && std::isfinite(t)) { flag_algebra("AreaReduce(Accumulator)", ra, p._area0); flag_algebra("AreaReduce(real)", rr, p._area0); }
 });
 
 // ---- metamorphic laws of the statement, on the implementation ----
@@ -76,7 +233,6 @@ template<class Earth> static bool areaof(const Earth& e, const std::vector<V>& v
   PolygonAreaT<Earth> p(e, false); for (auto& q : v) p.AddPoint(q.lat, q.lon); p.Compute(rev, sign, per, area); return true;
 }
 static bool ambiguous(const V& a, const V& b) { double d = std::fabs(Math::AngDiff(a.lon, b.lon)); double sl = std::fabs(a.lat + b.lat); return d == 180 || (sl < 1e-9 && (d > 179 || std::fabs(a.lat) == 90)); }
-static double moddiff(double a, double b, double A) { return std::fabs(std::remainder(a - b, A)); }
 template<class Earth> static void meta(const Earth& e, const std::vector<V>& v, double A) {
   double p0, a0, p1, a1; areaof(e, v, false, true, p0, a0);
   double tol = 1e-15 * 64 * (A + std::fabs(a0)) , ptol = 1e-13 * (p0 + 1);
@@ -103,59 +259,304 @@ template<class Earth> static void meta(const Earth& e, const std::vector<V>& v, 
   if (n >= 4) { size_t k = n / 2; std::vector<V> w1(v.begin(), v.begin() + k + 1), w2(v.begin() + k, v.end()); w2.push_back(v[0]);
     if (!ambiguous(v[0], v[k])) { double pa, aa, pb, ab; areaof(e, w1, false, true, pa, aa); areaof(e, w2, false, true, pb, ab);
     if (!(moddiff(aa + ab, a0, A) <= 4 * tol)) bad("cut-additivity", "areas of the two parts do not add up modulo the ellipsoid area: " + std::to_string(aa) + " + " + std::to_string(ab) + " vs " + std::to_string(a0)); } }
-  // (6) AddEdge polygon == AddPoint polygon (edges taken from the inverse solution)
+  // (6) a repeated vertex (an edge of zero length) changes nothing
+  { std::vector<V> w = v; size_t k = n / 3; w.insert(w.begin() + k, v[k]); areaof(e, w, false, true, p1, a1);
+    if (std::fabs(v[k].lat) != 90 && !(std::fabs(a1 - a0) <= tol && std::fabs(p1 - p0) <= ptol)) bad("repeated-vertex", "area/perimeter change when a vertex is repeated: " + std::to_string(a0) + " vs " + std::to_string(a1)); }
 }
+struct MetaFn { const std::vector<V>& v; template<class Earth> void operator()(const Earth& e) const { meta(e, v, e.EllipsoidArea()); } };
 static Reg r_meta("polymeta", [](const Args& a) {
   std::vector<V> v; for (size_t i = 1; i < a.size(); ++i) { auto t = splitc(a[i]); v.push_back({unhx(t[0]), unhx(t[1])}); }
-  if (a[0] == "G") { Geodesic e = Geodesic::WGS84(); meta(e, v, e.EllipsoidArea()); }
-  else if (a[0] == "E") { GeodesicExact e = GeodesicExact::WGS84(); meta(e, v, e.EllipsoidArea()); }
-  else { Rhumb e = Rhumb::WGS84(); meta(e, v, e.EllipsoidArea()); }
+  with_earth(a[0][0], Constants::WGS84_a(), Constants::WGS84_f(), MetaFn{v});
   emit("done");
 });
 
+// ---- AddEdge-built polygon == AddPoint-built polygon through the vertices CurrentPoint reports -----------------------
+// edgepoly <bk> <a> <f> <polyline> <lat0> <lon0> azi:s ...   (edges short enough to be the unique shortest line)
+struct EdgeFn { bool polyline; double a, f; const Args& args;
+  template<class Earth> void operator()(const Earth& e) const {
+    typedef PolygonAreaT<Earth> Poly;
+    Poly pe(e, polyline), pp(e, polyline);
+    double lat = unhx(args[4]), lon = unhx(args[5]); pe.AddPoint(lat, lon); pp.AddPoint(lat, lon);
+    bool usable = true; size_t n = 1; double sumS = 0;
+    for (size_t i = 6; i < args.size(); ++i) { auto t = splitc(args[i]); double azi = unhx(t[0]), s = unhx(t[1]);
+      double la0, lo0; pe.CurrentPoint(la0, lo0);
+      pe.AddEdge(azi, s); double la, lo; pe.CurrentPoint(la, lo);
+      if (!std::isfinite(la) || !std::isfinite(lo)) { usable = false; break; }
+      // the edge must be the unique shortest line between its ends, as the statement assumes
+      { double la2, lo2, x; e.GenDirect(la0, lo0, azi, false, s, Earth::LATITUDE | Earth::LONGITUDE | Earth::LONG_UNROLL, la2, lo2, x, x, x, x, x, x);
+        if (!(std::fabs(lo2 - lo0) < 179.9)) usable = false; }
+      if (std::fabs(la) > 89.9 || std::fabs(la0) > 89.9) usable = false;    // through a pole the longitude jumps by 180
+      pp.AddPoint(la, lo); ++n; sumS += std::fabs(s);
+    }
+    std::string out = std::to_string(n) + " " + (usable ? "1" : "0");
+    if (usable) {
+      for (int rv = 0; rv < 2; ++rv) for (int sg = 0; sg < 2; ++sg) {
+        double p1 = SENT, a1 = SENT, p2 = SENT, a2 = SENT; unsigned n1 = pe.Compute(rv, sg, p1, a1), n2 = pp.Compute(rv, sg, p2, a2);
+        if (rv == 0 && sg == 1) out += " " + hx(p1) + " " + opt(a1 != SENT, a1) + " " + hx(p2) + " " + opt(a2 != SENT, a2);
+        // documented accuracy: 15 nm (series, |f| <= 0.01: 25 nm) per solution, two solutions per edge, x4; area 0.1 m^2 per vertex x4
+        double A = pe._area0, tolP = double(n) * 4 * 2 * 25e-9 + 1e-9, tolA = double(n) * 4 * 0.1 * (a / 6.4e6) * (a / 6.4e6);
+        if (n1 != n2 || n1 != n) badx("edge-vs-point", "vertex counts differ: " + std::to_string(n1) + " vs " + std::to_string(n2));
+        if (!(std::fabs(p1 - p2) <= tolP)) badx("edge-vs-point", "perimeter of the AddEdge-built polygon " + g17(p1) + " vs AddPoint-built " + g17(p2));
+        if (polyline) { if (a1 != SENT || a2 != SENT) badx("polyline-touches-area", "area written for a polyline"); }
+        else if (std::isfinite(a1) && std::isfinite(a2) && !(moddiff(a1, a2, A) <= tolA)) badx("edge-vs-point", "area of the AddEdge-built polygon " + g17(a1) + " vs AddPoint-built " + g17(a2) + " (reverse=" + std::to_string(rv) + " sign=" + std::to_string(sg) + ")");
+      }
+    }
+    emit(out);
+  } };
+static Reg r_edgepoly("edgepoly", [](const Args& a) {
+  double ea = unhx(a[1]), ef = unhx(a[2]); with_earth(a[0][0], ea, ef, EdgeFn{a[3] == "1", ea, ef, a});
+});
+
+// ---- tools/Planimeter, in process ----------------------------------------------------------------------------------
+struct PlanOpt { bool reverse = false, sign = true, polyline = false, longfirst = false, exact = false, geoconvert = false; int linetype = 0; int prec = 6; double a = Constants::WGS84_a(), f = Constants::WGS84_f(); std::string cdelim; bool viastring = false; char lsep = ';'; bool usage_error = false; int expect_rc = 1; bool version = false; };
+static const std::vector<std::vector<std::string>> plan_variants = {
+  {}, {"-r"}, {"-s"}, {"-r", "-s"}, {"-l"}, {"-R"}, {"-R", "-r"}, {"-R", "-s"}, {"-R", "-l"}, {"-E"}, {"-R", "-E"}, {"-G"}, {"-Q"}, {"-Q", "-E"}, {"-Q", "-s"},
+  {"-p", "0"}, {"-p", "10"}, {"-p", "3", "-r"}, {"-p", "15"}, {"-p", "-2"}, {"-w"}, {"-w", "-R"}, {"-e", "6378388", "1/297"}, {"-e", "6.4e6", "0"}, {"-e", "6.4e6", "-0.01", "-E"},
+  {"--geoconvert-input"}, {"--geoconvert-input", "-w"}, {"--geoconvert-input", "-R"}, {"--comment-delimiter", "#"}, {"--comment-delimiter", "//", "-l"},
+  {"--input-string"}, {"--input-string", "--line-separator", "/"}, {"--input-file", "-", "--output-file", "-"}, {"-r", "-r"}, {"-l", "-l", "-s", "-s"}, {"-R", "-G"}, {"-Q", "-l"},
+  // usage errors: exit status 1, nothing on standard output
+  {"-p", "x"}, {"-e", "6378137"}, {"-e", "abc", "0"}, {"--bogus"}, {"--line-separator", "ab"}, {"-p"}, {"--input-string", "--input-file", "nonexistent"},
+  {"--input-file", "/nonexistent/verif-c08"}, {"-e", "6378137", "1/0x"}, {"--comment-delimiter"}, {"-r", "-z"},
+  // requests for information: exit status 0, no result lines
+  {"-h"}, {"--help"}, {"--version"}, {"-r", "--version", "--bogus"}};
+static PlanOpt plan_options(const std::vector<std::string>& v) {
+  PlanOpt o;
+  for (size_t m = 0; m < v.size(); ++m) { const std::string& s = v[m];
+    if (s == "-r") o.reverse = !o.reverse; else if (s == "-s") o.sign = !o.sign; else if (s == "-l") o.polyline = !o.polyline; else if (s == "-w") o.longfirst = !o.longfirst;
+    else if (s == "-G") o.linetype = 0; else if (s == "-Q") o.linetype = 1; else if (s == "-R") o.linetype = 2; else if (s == "-E") o.exact = true;
+    else if (s == "--geoconvert-input") o.geoconvert = true; else if (s == "--input-string") o.viastring = true;
+    else if (s == "--line-separator") { if (m + 1 < v.size() && v[m + 1].size() == 1) o.lsep = v[++m][0]; else o.usage_error = true; }
+    else if (s == "--comment-delimiter") { if (m + 1 < v.size()) o.cdelim = v[++m]; else o.usage_error = true; }
+    else if (s == "-h" || s == "--help") { o.usage_error = true; o.expect_rc = 0; break; }
+    else if (s == "-p") { if (m + 1 >= v.size()) { o.usage_error = true; break; } try { o.prec = Utility::val<int>(v[++m]); } catch (const std::exception&) { o.usage_error = true; } }
+    else if (s == "-e") { if (m + 2 >= v.size()) { o.usage_error = true; break; } try { o.a = Utility::val<double>(v[m + 1]); o.f = Utility::fract<double>(v[m + 2]); } catch (const std::exception&) { o.usage_error = true; } m += 2; }
+    else if (s == "--input-file") { if (m + 1 < v.size() && v[m + 1] == "-") ++m; else { o.usage_error = true; ++m; } }
+    else if (s == "--output-file") { if (m + 1 < v.size() && v[m + 1] == "-") ++m; else { o.usage_error = true; ++m; } }
+    else if (s == "--version") { o.usage_error = true; o.expect_rc = 0; o.version = true; break; }
+    else o.usage_error = true;
+  }
+  return o;
+}
+static int run_planimeter(const std::vector<std::string>& opts, const std::string& input, bool viastring, char lsep, std::string& output) {
+  std::vector<std::string> av; av.push_back("Planimeter");
+  for (auto& s : opts) { av.push_back(s); if (s == "--input-string") { std::string t = input; if (!t.empty() && t.back() == '\n') t.pop_back(); for (auto& c : t) if (c == '\n') c = lsep; av.push_back(t); } }
+  std::vector<const char*> argv; for (auto& s : av) argv.push_back(s.c_str());
+  std::istringstream in(viastring ? std::string() : input); std::ostringstream out, err;
+  std::streambuf *oi = std::cin.rdbuf(in.rdbuf()), *oo = std::cout.rdbuf(out.rdbuf()), *oe = std::cerr.rdbuf(err.rdbuf());
+  std::cin.clear();
+  int rc = -99; std::string ex;
+  try { rc = tool_planimeter::main(int(argv.size()), argv.data()); } catch (const std::exception& e) { ex = typeid(e).name(); } catch (...) { ex = "unknown"; }
+  std::cin.rdbuf(oi); std::cout.rdbuf(oo); std::cerr.rdbuf(oe); std::cin.clear(); std::cout.clear(); std::cerr.clear();
+  output = out.str();
+  if (!ex.empty()) { badx("tool-exception-escapes", "Planimeter: exception " + ex + " escaped main"); return -98; }
+  return rc;
+}
+static std::vector<std::string> split_lines(const std::string& s) { std::vector<std::string> v; std::istringstream is(s); std::string l; while (std::getline(is, l)) v.push_back(l); return v; }
+// what the API gives for the same input: one line per polygon with at least one vertex
+template<class Earth> static void plan_expected(const Earth& earth, const PlanOpt& o, const AuxLatitude& ellip, const std::vector<std::string>& lines, std::string& text, std::string& tags, std::vector<unsigned>& nums) {
+  PolygonAreaT<Earth> poly(earth, o.polyline);
+  int prec = std::min(10 + Math::extra_digits(), std::max(0, o.prec));
+  std::string eol = "\n";
+  auto finish = [&]() { double per, area; unsigned n = poly.Compute(o.reverse, o.sign, per, area);
+    if (n > 0) { text += std::to_string(n) + " " + Utility::str(per, prec); if (!o.polyline) text += " " + Utility::str(area, std::max(0, prec - 5)); text += eol; nums.push_back(n); }
+    poly.Clear(); eol = "\n"; };
+  for (std::string s : lines) {
+    if (!o.cdelim.empty()) { auto m = s.find(o.cdelim); if (m != std::string::npos) { eol = " " + s.substr(m) + "\n"; s = s.substr(0, m); } }
+    bool endpoly = s.empty(); double lat = 0, lon = 0;
+    if (!endpoly) {
+      try {
+        if (o.geoconvert) { GeoCoords p(s, true, o.longfirst); lat = p.Latitude(); lon = p.Longitude(); }
+        else { std::istringstream str(s); std::string slat, slon, junk; if (!(str >> slat >> slon)) throw GeographicErr("incomplete"); if (str >> junk) throw GeographicErr("extra"); DMS::DecodeLatLon(slat, slon, lat, lon, o.longfirst); }
+        if (std::isnan(lat) || std::isnan(lon)) endpoly = true;
+      } catch (const GeographicErr&) { endpoly = true; }
+    }
+    tags += endpoly ? 'e' : 'v';
+    if (endpoly) finish();
+    else poly.AddPoint(o.linetype == 1 ? ellip.Convert(AuxLatitude::PHI, AuxLatitude::XI, lat, o.exact) : lat, lon);
+  }
+  finish();
+}
+// planim <variant> s:<input>
+static Reg r_planim("planim", [](const Args& a) {
+  const auto& v = plan_variants[size_t(std::atoi(a[0].c_str())) % plan_variants.size()];
+  std::string input = unhs(a[1]); PlanOpt o = plan_options(v);
+  std::string output; int rc = run_planimeter(v, input, o.viastring, o.lsep, output);
+  if (rc < -90) { emit("crash"); return; }
+  if (o.usage_error) { emit("usage " + std::to_string(rc) + " " + std::to_string(output.size()));
+    if (o.version) { if (rc != 0 || output.find("GeographicLib version") == std::string::npos || split_lines(output).size() != 1) badx("tool-usage-error", "Planimeter --version: exit status " + std::to_string(rc) + ", output '" + output + "'"); return; }
+    if (rc != o.expect_rc || !output.empty()) badx("tool-usage-error", "Planimeter: command line that asks for no computation gives exit status " + std::to_string(rc) + " (expected " + std::to_string(o.expect_rc) + ") and " + std::to_string(output.size()) + " bytes of output"); return; }
+  std::string text, tags; std::vector<unsigned> nums;
+  // --input-string: the text without its final newline, newlines written as the separator (an empty string means
+  // "read standard input", which is empty here)
+  std::string eff = input; if (o.viastring && !eff.empty() && eff.back() == '\n') eff.pop_back();
+  auto lines = split_lines(eff);
+  std::string err = guarded([&] {
+    AuxLatitude ellip(o.a, o.f); double aa = o.a, ff = o.f;
+    if (o.linetype == 1) { aa = std::sqrt(ellip.AuthalicRadiusSquared(o.exact)); ff = 0; }
+    if (o.linetype == 2) plan_expected(Rhumb(aa, ff, o.exact), o, ellip, lines, text, tags, nums);
+    else plan_expected(Geodesic(aa, ff, o.exact), o, ellip, lines, text, tags, nums);
+  });
+  auto outl = split_lines(output); std::string ns;
+  for (auto& l : outl) { ns += " " + l.substr(0, l.find(' ')); }
+  emit(std::string(o.polyline ? "1" : "0") + " " + hs(tags) + " " + std::to_string(rc) + " " + std::to_string(outl.size()) + ns);
+  if (!err.empty()) { if (rc == 0) badx("tool-vs-api", "Planimeter: the API throws (" + err + ") but the tool exits with status 0"); return; }
+  if (rc != 0) badx("tool-exit-status", "Planimeter: exit status " + std::to_string(rc) + " on well-formed options");
+  if (output != text) {
+    auto el = split_lines(text); size_t i = 0; while (i < el.size() && i < outl.size() && el[i] == outl[i]) ++i;
+    badx("tool-vs-api", "Planimeter: " + std::to_string(outl.size()) + " lines, API " + std::to_string(el.size()) + "; first difference at line " + std::to_string(i + 1) + ": tool '" + (i < outl.size() ? outl[i] : "<none>") + "' API '" + (i < el.size() ? el[i] : "<none>") + "'");
+  }
+  // one result line per polygon: count, then perimeter with prec digits, then (polygons only) area
+  for (auto& l : outl) { std::string body = l; if (!o.cdelim.empty()) { auto m = body.find(" " + o.cdelim); if (m != std::string::npos) body = body.substr(0, m); }
+    std::istringstream is(body); std::string t; int nf = 0; while (is >> t) ++nf;
+    if (nf != (o.polyline ? 2 : 3)) badx("tool-line-format", "Planimeter: result line '" + l + "' has " + std::to_string(nf) + " fields"); }
+});
+
+// ---- generators -----------------------------------------------------------------------------------------------------
 static double nlon(Rng& r) {
-  int k = r.irange(0, 9);
+  int k = r.irange(0, 10);
   switch (k) { case 0: return r.pick(std::vector<double>{0, -0.0, 180, -180, 360, -360, 540, -540, 720, 90, -90, 270});
     case 1: return nextup(r.pick(std::vector<double>{0, 180, -180, 360}), 1); case 2: return nextdn(r.pick(std::vector<double>{0, 180, -180, 360}), 1);
-    case 3: return 90.0 * r.irange(-8, 8); case 4: return r.range(-720, 720); default: return r.range(-180, 180); }
+    case 3: return 90.0 * r.irange(-8, 8); case 4: return r.range(-720, 720); case 5: return 180.0 + 360.0 * r.irange(-4, 4); default: return r.range(-180, 180); }
 }
 static double nlat(Rng& r) { int k = r.irange(0, 9); return k == 0 ? r.pick(std::vector<double>{90, -90, 0, -0.0}) : k == 1 ? double(r.irange(-9, 9) * 10) : r.range(-89, 89); }
+static double nazi(Rng& r) { int k = r.irange(0, 6); return k == 0 ? 90.0 * r.irange(-8, 8) : k == 1 ? r.range(-720, 720) : k == 2 ? r.pick(std::vector<double>{180, -180, 0, -0.0, 360, 540, 270, -270}) : r.range(-180, 180); }
+static std::string flags(Rng& r) { return std::string(r.coin() ? "1" : "0") + ":" + (r.coin() ? "1" : "0"); }
+static std::string P(double lat, double lon) { return "P:" + hx(lat) + ":" + hx(lon); }
+static std::string E(double azi, double s) { return "E:" + hx(azi) + ":" + hx(s); }
+
+// vertex lists of named shapes (for histories, metamorphic laws and the tool)
+static std::vector<V> shape(Rng& r, int kind) {
+  std::vector<V> v;
+  switch (kind) {
+  case 0: { // ring round a pole, possibly several times
+    int n = r.irange(3, 12), turns = r.irange(1, 3); double lat = r.pick(std::vector<double>{89.5, 80, 60, 30, -45, -85}) + r.range(-0.4, 0.4), l0 = nlon(r), dir = r.coin() ? 1 : -1;
+    for (int i = 0; i < n * turns; ++i) v.push_back({lat + r.range(-0.3, 0.3), l0 + dir * 360.0 * i / n}); break; }
+  case 1: { // tiny polygon
+    double lat = nlat(r) * 0.98, lon = nlon(r), h = std::ldexp(1.0, -r.irange(10, 40)); int n = r.irange(3, 6);
+    for (int i = 0; i < n; ++i) v.push_back({lat + h * std::sin(6.283185307179586 * i / n), lon + h * std::cos(6.283185307179586 * i / n)}); break; }
+  case 2: { // nearly a hemisphere: a belt close to the equator
+    int n = r.irange(4, 9); double l0 = nlon(r), lat = r.range(-2, 2);
+    for (int i = 0; i < n; ++i) v.push_back({lat + r.range(-1, 1), l0 + 360.0 * i / n}); break; }
+  case 3: { // straddling longitude 0 or 180, vertices exactly on them
+    double c = r.pick(std::vector<double>{0, 180, -180, 360, -360, 540}); int n = r.irange(3, 7);
+    for (int i = 0; i < n; ++i) v.push_back({r.range(-60, 60), c + (i % 3 == 0 ? 0.0 : r.range(-20, 20))}); break; }
+  case 4: { // vertices at the poles, repeated vertices
+    int n = r.irange(3, 7); for (int i = 0; i < n; ++i) { V q{nlat(r), nlon(r)}; if (i == 1) q.lat = r.coin() ? 90 : -90; v.push_back(q); if (r.irange(0, 2) == 0) v.push_back(q); } break; }
+  default: { int n = r.irange(3, 9); for (int i = 0; i < n; ++i) v.push_back({nlat(r), nlon(r)}); }
+  }
+  for (auto& q : v) q.lat = std::max(-90.0, std::min(90.0, q.lat));
+  return v;
+}
+
+static const char* deg_form(Rng& r, double x, bool islat, std::string& out) {
+  // textual forms of an angle that DMS::Decode accepts; the expected value is what the library decodes
+  int k = r.irange(0, 5); char b[80];
+  double ax = std::fabs(x); const char* h = islat ? (x < 0 ? "S" : "N") : (x < 0 ? "W" : "E");
+  switch (k) {
+  case 0: std::snprintf(b, sizeof b, "%.17g", x); break;
+  case 1: std::snprintf(b, sizeof b, "%.10f%s", ax, h); break;
+  case 2: { int d = int(ax); double m = (ax - d) * 60; std::snprintf(b, sizeof b, "%s%dd%.8f'", x < 0 ? "-" : "", d, m); break; }
+  case 3: { int d = int(ax); double m = (ax - d) * 60; int mi = int(m); double s = (m - mi) * 60; std::snprintf(b, sizeof b, "%d:%02d:%.6f%s", d, mi, s, h); break; }
+  case 4: { int d = int(ax); double m = (ax - d) * 60; int mi = int(m); double s = (m - mi) * 60; std::snprintf(b, sizeof b, "%s%dd%d'%.5f\"", h, d, mi, s); break; }
+  default: std::snprintf(b, sizeof b, "%.6f", x); break;
+  }
+  out = b; return h;
+}
+
+static void gen_planim(Rng& r, int variant) {
+  const auto& v = plan_variants[size_t(variant) % plan_variants.size()]; PlanOpt o = plan_options(v);
+  std::string input; int npoly = r.irange(0, 4);
+  if (r.irange(0, 5) == 0) input += r.coin() ? "\n" : "junk line\n";     // terminator before any vertex: no output line
+  for (int k = 0; k < npoly; ++k) {
+    std::vector<V> vs = shape(r, r.irange(0, 6)); int sz = r.irange(0, 9) == 0 ? r.irange(0, 2) : int(vs.size()); vs.resize(std::min<size_t>(vs.size(), size_t(sz)));
+    for (auto& q : vs) {
+      double lat = q.lat, lon = std::remainder(q.lon, 360.0); std::string line;
+      if (o.geoconvert && r.irange(0, 2) && std::fabs(lat) < 89) {
+        GeoCoords g(lat, lon); int f = r.irange(0, 2);
+        line = f == 0 ? g.UTMUPSRepresentation(r.irange(0, 5)) : f == 1 ? g.MGRSRepresentation(r.irange(0, 6)) : g.GeoRepresentation(8, o.longfirst);
+      } else {
+        std::string sa, sb; const char* ha = deg_form(r, lat, true, sa); const char* hb = deg_form(r, r.irange(0, 3) ? lon : q.lon, false, sb); (void)ha; (void)hb;
+        bool hemi = (std::isalpha((unsigned char)sa.back()) || std::isalpha((unsigned char)sa[0])) && (std::isalpha((unsigned char)sb.back()) || std::isalpha((unsigned char)sb[0]));
+        bool lonfirst = o.longfirst; if (hemi && r.coin()) lonfirst = !lonfirst;     // hemisphere designators override -w
+        line = lonfirst ? sb + " " + sa : sa + " " + sb;
+        if (r.irange(0, 7) == 0) line = "  " + line + "\t";
+      }
+      if (!o.cdelim.empty() && r.irange(0, 3) == 0) line += " " + o.cdelim + " c" + std::to_string(r.irange(0, 99));
+      input += line + "\n";
+    }
+    if (k + 1 < npoly || r.coin()) {
+      // the end of a polygon: blank line, or anything that is not a vertex
+      input += r.pick(std::vector<std::string>{"", "", "", "end", "91 0", "0 0 0", "45", "nan nan", "12x 5", "1e400 x", "0 400 E N", "# text"});
+      if (!o.cdelim.empty() && r.coin()) input += std::string(" ") + o.cdelim + " tail" + std::to_string(k);
+      input += "\n";
+      if (r.irange(0, 5) == 0) input += "\n";
+    }
+  }
+  if (o.viastring) { for (auto& c : input) if (c == o.lsep || c == '\t') c = ' '; }
+  run("planim", {std::to_string(variant), hs(input)});
+  stratum(std::string("planimeter") + (o.usage_error ? "-usage-error" : o.linetype == 2 ? "-rhumb" : o.linetype == 1 ? "-authalic" : "-geodesic"));
+}
 
 void gv::generate(const std::string& tier, uint64_t seed) {
   Rng r(seed * 32452843 + 8);
-  long n = tier == "thorough" ? 20000 : 1500;
-  const char* backends = "GER";
+  bool thorough = tier == "thorough";
+  long n = thorough ? 12000 : 3000;
+  const char* backends = "GERXY";
   for (long i = 0; i < n; ++i) {
-    char bk = backends[i % 3];
+    char bk = backends[i % 5];
     double a = 6378137, f = 1 / 298.257223563; if (i % 7 == 0) { a = 6.4e6; f = r.pick(std::vector<double>{0.0, 0.01, -0.01, 1 / 150.0}); }
-    bool polyline = i % 5 == 0;
+    bool polyline = i % 4 == 0;
     Args ops = {std::string(1, bk), hx(a), hx(f), polyline ? "1" : "0"};
-    int len = r.irange(1, tier == "thorough" ? 200 : 30);
+    int len = r.irange(1, thorough ? 200 : 30);
+    int style = r.irange(0, 9);   // 0: starts with edges/tests on the empty object; 1: a named shape; 2: edges only; else mixed
     double lat0 = nlat(r), lon0 = nlon(r);
+    if (style == 0) { int m = r.irange(1, 3); for (int j = 0; j < m; ++j) { int k = r.irange(0, 3);
+        if (k == 0) ops.push_back(E(nazi(r), r.range(0, 3e6))); else if (k == 1) ops.push_back("TE:" + hx(nazi(r)) + ":" + hx(r.range(0, 2e6)) + ":" + flags(r));
+        else if (k == 2) ops.push_back("TP:" + hx(lat0) + ":" + hx(lon0) + ":" + flags(r)); else ops.push_back("C:" + flags(r)); } }
+    if (style == 1) { auto vs = shape(r, r.irange(0, 5)); for (auto& q : vs) { ops.push_back(P(q.lat, q.lon)); if (r.irange(0, 3) == 0) ops.push_back("C:" + flags(r)); }
+      len = r.irange(0, 4); if (!vs.empty()) { lat0 = vs.back().lat; lon0 = vs.back().lon; } }
     for (int j = 0; j < len; ++j) {
       int k = r.irange(0, 19);
       double lat = nlat(r), lon = nlon(r);
       if (r.irange(0, 2) == 0) { lat = lat0 + r.range(-5, 5); if (std::fabs(lat) > 90) lat = lat0; lon = lon0 + r.range(-5, 5); }
-      lat0 = lat; lon0 = lon;
-      if (k < 11) ops.push_back("P:" + hx(lat) + ":" + hx(lon));
-      else if (k < 14) ops.push_back("E:" + hx(r.irange(0, 4) ? r.range(-180, 180) : 90.0 * r.irange(-2, 2)) + ":" + hx(r.irange(0, 5) ? r.range(0, 3e6) : r.pick(std::vector<double>{0.0, 1e7, 2e7, 4e7, -1e6})));
-      else if (k < 16) ops.push_back(std::string("C:") + (r.coin() ? "1" : "0") + ":" + (r.coin() ? "1" : "0"));
-      else if (k < 18) ops.push_back("TP:" + hx(lat) + ":" + hx(lon) + ":" + (r.coin() ? "1" : "0") + ":" + (r.coin() ? "1" : "0"));
-      else if (k < 19) ops.push_back("TE:" + hx(r.range(-180, 180)) + ":" + hx(r.range(0, 2e6)) + ":" + (r.coin() ? "1" : "0") + ":" + (r.coin() ? "1" : "0"));
-      else ops.push_back("X");
+      if (r.irange(0, 11) == 0) { lat = lat0; lon = lon0 + 360.0 * r.irange(-1, 1); }   // repeated vertex, possibly relabelled
+      if (style == 2 && j > 0 && k < 11) k = 12;
+      if (k < 11) { ops.push_back(P(lat, lon)); lat0 = lat; lon0 = lon; }
+      else if (k < 14) ops.push_back(E(nazi(r), r.irange(0, (bk == 'R' || bk == 'Y') ? 15 : 5) ? r.range(0, 3e6) : r.pick(std::vector<double>{0.0, 1e7, 2e7, 4e7, 1.3e8, -1e6})));
+      else if (k < 16) ops.push_back("C:" + flags(r));
+      else if (k < 18) ops.push_back("TP:" + hx(lat) + ":" + hx(lon) + ":" + flags(r));
+      else if (k < 19) ops.push_back("TE:" + hx(nazi(r)) + ":" + hx(r.irange(0, 7) ? r.range(0, 2e6) : r.pick(std::vector<double>{0.0, 2e7, (bk == 'R' || bk == 'Y') ? 3e6 : 1e8, -5e5})) + ":" + flags(r));
+      else { ops.push_back("X"); if (r.coin()) ops.push_back(r.coin() ? "C:" + flags(r) : E(nazi(r), 1e5)); }
     }
-    ops.push_back(std::string("C:") + (r.coin() ? "1" : "0") + ":" + (r.coin() ? "1" : "0"));
+    ops.push_back("C:" + flags(r));
     run("poly", ops);
-    stratum(std::string("history-") + bk + (polyline ? "-polyline" : "-polygon"));
+    stratum(std::string("history-") + bk + (polyline ? "-polyline" : "-polygon") + (style == 0 ? "-empty-start" : style == 1 ? "-shape" : style == 2 ? "-edges" : ""));
     if (i < 3) sample(current_op().substr(0, 300));
-    // transit kernels on nasty pairs
-    for (int j = 0; j < 6; ++j) run("transit", {hx(nlon(r)), hx(nlon(r))});
+    // transit kernels on nasty pairs, incl. unrolled ends within half a turn
+    for (int j = 0; j < 6; ++j) { double l1 = nlon(r), l2 = nlon(r); if (j >= 4) { l1 = r.coin() ? 360.0 * r.irange(-3, 3) + r.pick(std::vector<double>{0, -0.0, 1e-14, -1e-14, 180, -180}) : r.range(-1080, 1080); l2 = l1 + (r.coin() ? r.range(-179, 179) : r.pick(std::vector<double>{0.0, 90, -90, 179, -179, 1e-13, -1e-13})); }
+      run("transit", {hx(l1), hx(l2)}); }
     // metamorphic laws
     if (i % 2 == 0) {
-      int m = r.irange(3, 9); Args pts = {std::string(1, bk)}; bool grid = r.irange(0, 3) == 0;
-      for (int j = 0; j < m; ++j) pts.push_back(hx(grid ? 10.0 * r.irange(-8, 8) : nlat(r)) + ":" + hx(grid ? 90.0 * r.irange(-4, 4) + (r.irange(0, 3) ? 0 : 45) : nlon(r)));
-      run("polymeta", pts);
+      Args pts = {std::string(1, bk)}; bool grid = r.irange(0, 3) == 0; int kind = r.irange(0, 9);
+      if (kind <= 4) { for (auto& q : shape(r, kind)) pts.push_back(hx(q.lat) + ":" + hx(q.lon)); }
+      else { int m = r.irange(3, 9); for (int j = 0; j < m; ++j) pts.push_back(hx(grid ? 10.0 * r.irange(-8, 8) : nlat(r)) + ":" + hx(grid ? 90.0 * r.irange(-4, 4) + (r.irange(0, 3) ? 0 : 45) : nlon(r))); }
+      if (pts.size() >= 4) { run("polymeta", pts); stratum(std::string("meta-") + bk + (kind == 0 ? "-pole-ring" : kind == 1 ? "-tiny" : kind == 2 ? "-hemisphere" : kind == 3 ? "-meridians" : kind == 4 ? "-poles-repeats" : "")); }
     }
+    // AreaReduce on accumulators
+    if (i % 2 == 1) {
+      double A = 5.1e14, s = r.irange(0, 3) == 0 ? A * r.pick(std::vector<double>{0.5, -0.5, 1, -1, 0, 1.5, -1.5, 0.25, 2}) : r.range(-3, 3) * A * (r.coin() ? 1 : 1e-6);
+      if (r.irange(0, 5) == 0) s = Geodesic(a, f).EllipsoidArea() * r.pick(std::vector<double>{0.5, -0.5, 1, -1, 1.5, -1.5, 2.5});
+      double t = r.irange(0, 2) ? r.range(-0.4, 0.4) * ulpof(s) : 0.0;
+      run("areduce", {hx(a), hx(f), hx(s), hx(t), std::to_string(r.irange(-3, 4))}); stratum("areareduce");
+    }
+    // AddEdge-built vs AddPoint-built
+    if (i % 3 == 0) {
+      Args e = {std::string(1, bk), hx(a), hx(f), i % 12 == 0 ? "1" : "0", hx(r.range(-75, 75)), hx(nlon(r))};
+      int m = r.irange(1, 8); for (int j = 0; j < m; ++j) e.push_back(hx(nazi(r)) + ":" + hx(r.irange(0, 4) ? r.range(0, 2e6) : r.pick(std::vector<double>{0.0, 1.0, 5e6, 9e6})));
+      run("edgepoly", e); stratum(std::string("edge-vs-point-") + bk);
+    }
+    // the tool
+    if (i % 3 == 1) gen_planim(r, int(i / 3) % int(plan_variants.size()));
   }
 }
 int main(int argc, char** argv) { return gv::main_(argc, argv); }
